@@ -19,7 +19,10 @@ RULE = (
     'field chains, sets). Oracle: the call returns an AST of the entry point\'s kind or raises HplSyntaxError, HplSanityError, TypeError, or '
     'ValueError when the text contains a call of a name that is not a built-in function; anything else is a violation bucketed by (exception type, '
     'innermost hpl frame). Statelessness: a rule-based state machine keeps one parser object per entry point, feeds it valid and invalid texts in '
-    'any order and compares every outcome (AST equality and print, or exception class and message) with a fresh parser object. Non-trivial: the '
+    'any order and compares every outcome (AST equality and print, or exception class and message) with a fresh parser object; an order '
+    'differential feeds sequences of up to 40 calls (texts derived from earlier ones: repeated, respelled, cut at an arbitrary character, one '
+    'junk token inserted; annotated properties and files) to one set of parser objects in order and to another in reverse order and requires '
+    'the same outcome for every call, attributing any mismatch with fresh parser objects. Non-trivial: the '
     'text got past the lexer (outcome other than an unexpected-character error); distinct by (entry point, text).'
 )
 ASSUMPTIONS = ['the interpreter recursion limit is held at the default (1000 frames above the call) while the library runs, so RecursionError within nesting depth 100 is reported']
@@ -234,6 +237,8 @@ def shard(ctx, shard_no, nshards, n, n_text, n_seq):
         core.run_hypothesis(ctx, 'alphabet', strat2, body, n_text)
     with ctx.timed('stateless'):
         run_machine(ctx, shard_no, n_seq)
+    with ctx.timed('order-differential'):
+        run_order_differential(ctx, shard_no, n_seq)
 
 
 NUM = re.compile(r'(?<![\w.@])(\d+)(\.\d*)?(?![\w.])')
@@ -318,6 +323,113 @@ def run_machine(ctx, shard_no, n_runs):
                 continue
             raise
         break
+
+
+JUNK = ['#', '# id: q', '}', '{', ')', 'or', 'within', '@', ':', ',', 'no', '"', '1e999', 'as', '.', 'forall', '# title: "z"', '$']
+
+
+def fam_annotated(ch):
+    """Annotated properties and files, mostly valid (the family in which a parser object has the most to remember)."""
+    props = []
+    for i in range(ch.int(1, 3)):
+        items = []
+        keys = ch.sample(['id', 'title', 'description'], min_size=0, max_size=3)
+        for key in keys:
+            val = ch.pick(['p1', 'p2', 'x', 'P_2']) if key == 'id' else ch.pick(['"t"', '"d"', '""', '"a # b"', '"p1"'])
+            items.append(f'# {key}: {val}')
+        body = ch.pick(['globally: no /a', 'globally: no b {x > 1}', 'after a as A: some b {x > @A.x} within 100 ms',
+                        'globally: a causes (b or c {y = 2.0})', 'until q {z in [1 to 2.5]}: b requires a within 1 s'])  # fmt: skip
+        sep = ch.pick(['\n', '\n', ' ', '\n\n'])
+        props.append(sep.join(items + [body]))
+    return ch.pick(['\n', '\n\n', ' ']).join(props)
+
+
+def derive_text(ch, calls):
+    """The next text of a call sequence, often derived from an earlier one: the same again, a respelling, a prefix cut
+    at an arbitrary character (a syntax error at an arbitrary parser state), or one junk token inserted anywhere."""
+    mode = ch.int(0, 11)
+    if calls and mode <= 4:
+        kind, text = calls[ch.int(0, len(calls) - 1)]
+        if mode == 0:
+            return kind, text
+        if mode == 1:
+            return kind, respell(text, ch.int(0, 63))
+        if mode in (2, 3) and len(text) > 2:
+            return kind, text[: ch.int(1, len(text) - 1)]
+        pos = ch.int(0, len(text))
+        while 0 < pos < len(text) and not text[pos - 1].isspace():
+            pos -= 1
+        return kind, text[:pos] + ch.pick(JUNK) + ' ' + text[pos:]
+    if mode <= 8:
+        return ch.pick(['property', 'specification', 'specification']), fam_annotated(ch)
+    c = gen_case(ch)
+    return c['kind'], c['text']
+
+
+def build_sequence(ints):
+    import random
+
+    calls = []
+    kinds = None
+    for x in ints:
+        ch = Chooser(random.Random(x).randbytes(1024))
+        if kinds is None:
+            kinds = ch.sample(list(lib.ENTRY_POINTS) + ['specification', 'property'], min_size=1, max_size=2)
+        kind, text = derive_text(ch, calls)
+        if kind not in kinds:
+            kind = kinds[0]
+        calls.append([kind, text])
+    return calls
+
+
+def sub_order(inp):
+    """inp: {'calls': [[kind, text], ...]}. Order differential: one set of parser objects sees the calls in the given
+    order, another one in reverse order; a stateless parser gives every call the same outcome in both. A mismatch is
+    then attributed with fresh parser objects (sub_sequence) so that the reported sequence is self-contained."""
+    calls = inp['calls']
+    fwd, bwd = {}, {}
+    out_f = []
+    for kind, text in calls:
+        if kind not in fwd:
+            fwd[kind] = lib.fresh_parser(kind)
+        out_f.append(guarded_outcome(kind, text, p=fwd[kind]))
+    out_b = [None] * len(calls)
+    for i in range(len(calls) - 1, -1, -1):
+        kind, text = calls[i]
+        if kind not in bwd:
+            bwd[kind] = lib.fresh_parser(kind)
+        out_b[i] = guarded_outcome(kind, text, p=bwd[kind])
+    for i, (a, b) in enumerate(zip(out_f, out_b)):
+        if not _same_outcome(a, b):
+            sub_sequence({'calls': calls[: i + 1]})
+            sub_sequence({'calls': list(reversed(calls[i:]))})
+            kind, text = calls[i]
+            raise Violation(
+                'order', f'order:{kind}:{a[0]}/{b[0]}', inp,
+                f'call {i} ({kind}, {text[:200]!r}) gives {a[0]} ({str(a[1])[:150]}) after the calls before it and {b[0]} ({str(b[1])[:150]}) after the calls behind it (in reverse order)',
+            )  # fmt: skip
+    # the last call of each order against a parser object that has seen nothing
+    for order, got in ((calls, out_f[-1]), (list(reversed(calls)), out_b[0])):
+        kind, text = order[-1]
+        ref = guarded_outcome(kind, text, p=lib.fresh_parser(kind))
+        if not _same_outcome(got, ref):
+            sub_sequence({'calls': order})
+            raise Violation('order', f'order-last:{kind}:{got[0]}/{ref[0]}', {'calls': order}, f'after {len(order) - 1} earlier calls the {kind} parser gives {got[0]} for {text[:200]!r}, a fresh one {ref[0]}')
+    return len(calls)
+
+
+SUBS['order'] = sub_order
+
+
+def run_order_differential(ctx, shard_no, n_runs):
+    def body(ints):
+        calls = build_sequence(ints)
+        sub_order({'calls': calls})
+        ctx.case(core.h64(repr(calls)), len(calls) >= 2, 'order-differential', sample=[[k, t[:60]] for k, t in calls[:4]] if len(calls) >= 3 else None)
+        ctx.count('order-differential-calls', len(calls))
+
+    strat = st.lists(st.integers(0, 2**32 - 1), min_size=2, max_size=40)
+    core.run_hypothesis(ctx, 'order', strat, body, n_runs)
 
 
 def atheris_campaigns(ctx, n_procs, runs):
